@@ -2,7 +2,7 @@
    f(x, y).  Only statements closed by [exact] + Print Assumptions. *)
 From Coq Require Import NArith List Bool.
 From Mpc Require Import Base.Label Base.Codec Base.CodecProof Circuit.Circuit Circuit.Garble
-     Proto.Session Proto.SessionProof.
+     Proto.Session Proto.SessionProof Proto.Conn Proto.ConnProof Proto.SessionConn.
 Import ListNotations.
 
 (* For every key-indexed family of block functions, every random stream,
@@ -44,3 +44,21 @@ Theorem C02_first_flight_roundtrip :
     = Some (mkFF key (gTables g) (garbler_inputs g (n0 c) x), rest).
 Proof. exact evaluator_first_roundtrip. Qed.
 Print Assumptions C02_first_flight_roundtrip.
+
+(* "Arbitrary transport fragmentation": the typed FIFO channel of the session
+   model is what p2p.Conn implements (C11).  For all buffer sizes >= 16, every
+   list of session messages that fit the wire formats (uint32 counts, 128-bit
+   labels, data below 4 GiB), EVERY read segmentation of the transport and
+   whether or not EOF arrives together with the last bytes: the messages sent
+   through the Conn model and flushed are received as exactly the same typed
+   values in order, and the bytes on the wire are [enc_msgs] (the bytes the
+   correspondence check compares with the implementation's transcript). *)
+Theorem C02_messages_over_conn :
+  forall (nbuf wcap rcap : N) (ms : list msg) (frags : list N) (eofdata : bool),
+    (16 <= wcap)%N -> (16 <= rcap)%N -> Forall msg_ok ms ->
+    let s := run_sender nbuf wcap (session_ops ms) in
+    wire_bytes s = enc_msgs ms /\
+    snd (recv_all rcap (map ty_of_msg ms) (r_init (mkT (wire_bytes s) frags eofdata 0%N)))
+    = Some (map val_of_msg ms).
+Proof. exact session_msgs_over_conn. Qed.
+Print Assumptions C02_messages_over_conn.
